@@ -6,6 +6,7 @@ package main
 import (
 	"fmt"
 	"go/ast"
+	"go/constant"
 	"go/types"
 	"golang.org/x/tools/go/packages"
 	"strings"
@@ -47,6 +48,12 @@ func c02Defaults(p *Prog, r *Report, rule string) {
 								}
 								if k.Name == "Id" && f.CanonObj(objOf(info, kv.Value)) == idObj {
 									id = true
+								}
+								// on this path the id is the main id: naming the constant is the same value
+								if k.Name == "Id" {
+									if v, err := env.Eval(kv.Value); err == nil && v != nil && v.C != nil && v.C.Kind() == constant.String && constant.StringVal(v.C) == main {
+										id = true
+									}
 								}
 							}
 						}
@@ -208,6 +215,37 @@ func c02Defaults(p *Prog, r *Report, rule string) {
 				}
 				return true
 			})
+		}
+		// fields of the record set by assignment after the literal: newTx.Seq = sequence.Next()
+		for _, gn := range f.Nodes {
+			as, ok := gn.Ast.(*ast.AssignStmt)
+			if !ok || gn.Synth != "" || len(as.Lhs) != len(as.Rhs) {
+				continue
+			}
+			for i, l := range as.Lhs {
+				sel, ok := ast.Unparen(l).(*ast.SelectorExpr)
+				if !ok {
+					continue
+				}
+				if tv, ok := info.Types[sel.X]; !ok || !strings.HasSuffix(strings.TrimPrefix(tv.Type.String(), "*"), "internal/model.Transaction") {
+					continue
+				}
+				rhs := as.Rhs[i]
+				switch sel.Sel.Name {
+				case "IsoLevel":
+					okLvl = lvlParam != nil && allAre(gn.ID, rhs, func(o ast.Expr) bool { return f.CanonObj(objOf(info, o)) == lvlParam })
+				case "Id":
+					okId = allAre(gn.ID, rhs, func(o ast.Expr) bool {
+						c, ok := o.(*ast.CallExpr)
+						return ok && p.callIs(fi.Pkg, c, kGenerate)
+					})
+				case "Seq":
+					okSeq = allAre(gn.ID, rhs, func(o ast.Expr) bool {
+						c, ok := o.(*ast.CallExpr)
+						return ok && p.callIs(fi.Pkg, c, kSeqNext)
+					})
+				}
+			}
 		}
 		r.Check(okLvl && okId && okSeq, rule, kTxBegin+"#registers", p.pos(fi.Decl), "registers (generated id, requested level, fresh snapshot point)",
 			fmt.Sprintf("Begin does not register the transaction with a generated id (%v), the requested level (%v) and a fresh sequence number (%v)", okId, okLvl, okSeq))
